@@ -1,0 +1,35 @@
+//go:build verif
+
+// Lemma harnesses for package badger: real Go functions composing the real functions; the
+// verifier proves their postconditions from the callees' contracts only.
+
+package badger
+
+// lemmaHeaderRoundTrip: C20/C16, "the varint entry header round-trips for all field values"
+// and fits in maxHeaderSize bytes.
+//
+//@ func lemmaHeaderRoundTrip
+//@   props C20 C16
+//@   ensures[same] result0 == h
+//@   ensures[length] result1 == result2 && result1 <= maxHeaderSize
+func lemmaHeaderRoundTrip(h header) (header, int, int) {
+	var buf [maxHeaderSize]byte
+	n := h.Encode(buf[:])
+	var out header
+	m := out.Decode(buf[:n])
+	return out, n, m
+}
+
+// lemmaThresholdStable: C06. If the first call (made by valueLog.write) says "inline", so
+// does the second (made by writeToLSM), whatever threshold is passed the second time.
+//
+//@ func lemmaThresholdStable
+//@   props C06
+//@   requires e != nil
+//@   ensures[stable] result0 ==> result1
+//@   assigns e.valThreshold
+func lemmaThresholdStable(e *Entry, t1, t2 int64) (bool, bool) {
+	a := e.skipVlogAndSetThreshold(t1)
+	b := e.skipVlogAndSetThreshold(t2)
+	return a, b
+}
